@@ -141,6 +141,8 @@ def gen_trees(seed, n):
         lexicals_of(tree, lex)
         txt = {x: G.render(x) for x in lex}
         txt.update(extra)
+        # names after which a dot is not a statement end but part of the name: blank-node labels (and prefixed names, below)
+        txt["~pn"] = ["_:x", "_:y"]
         if i % 6 == 5:
             txt["~sigil"] = "$"
         if i % 7 == 3 and kind != "group":
@@ -151,7 +153,7 @@ def gen_trees(seed, n):
                 if x.startswith(G.NS) and x[len(G.NS):].isalnum():
                     txt[x] = "e:" + x[len(G.NS):]
                     pn.append(txt[x])
-            txt["~pn"] = pn or ["e:none"]
+            txt["~pn"] = txt["~pn"] + pn
         cases.append({"kind": kind, "tree": tree, "txt": txt})
     return cases
 
